@@ -1026,12 +1026,54 @@ def run_import_spellings(ctx):
                     ctx.violation('import-spelling', case, 'imported sheet (encoding, rules) %r; with %r it is %r' % (got, ref[1], ref[0]), KNOWN_PRED)
 
 
+def run_import_bodies(ctx):
+    """the encoding an imported sheet reports follows the precedence (override, transport, its own BOM/@charset, the
+    referring sheet, utf-8) whatever the body is: a rule, a comment, blanks or nothing at all; a fetched empty sheet is a
+    found sheet, at every depth of an import chain"""
+    import cssutils
+    from harness import impl
+    bodies = [b'i{left:0}', b'/*c*/', b' ', b'\n', b'']
+    for penc in ('iso-8859-15', 'koi8-r', 'utf-8', None):
+        for http in (None, 'cp1252'):
+            for override in (None, 'iso-8859-5'):
+                for depth in (1, 3):
+                    ref = None
+                    for body in bodies:
+                        impl.reset()
+                        case = {'family': 'import-bodies', 'parent_encoding': penc, 'transport': http, 'override': override, 'depth': depth, 'body': list(body)}
+                        ctx.case(('import-body', penc, http, override, depth, body))
+
+                        def fetcher(url, body=body, depth=depth, http=http):
+                            k = int(url.rsplit('/', 1)[-1].split('.')[0][1:])
+                            if k < depth:
+                                return (http, ('@import "n%d.css";' % (k + 1)).encode('ascii'))
+                            return (http, body)
+                        try:
+                            p = cssutils.CSSParser(fetcher=fetcher)
+                            head = ('@charset "%s"; ' % penc) if penc else ''
+                            sheet = p.parseString((head + '@import "n1.css"; a{left:0}').encode(penc or 'utf-8'), href='http://h/a.css', encoding=override)
+                            chain = []
+                            cur = sheet
+                            for _k in range(depth):
+                                imp = [r for r in cur.cssRules if r.type == r.IMPORT_RULE][0]
+                                chain.append((imp.hrefFound, imp.styleSheet.encoding if imp.styleSheet is not None else None))
+                                cur = imp.styleSheet
+                        except Exception as e:  # noqa
+                            ctx.violation('import-spelling-raises', case, '%s: %s' % (type(e).__name__, str(e)[:160]), KNOWN_PRED)
+                            continue
+                        if ref is None:
+                            ref = (chain, dict(case))
+                        elif chain != ref[0]:
+                            ctx.violation('import-body', case, '(found, encoding) along the import chain %r; with body %r it is %r' % (chain, bytes(ref[1]['body']), ref[0]), KNOWN_PRED)
+
+
 def run(ctx):
     quick = ctx.tier == 'quick'
     rng = ctx.rng
     run_codec_names(ctx)
     run_unencodable(ctx)
     run_import_spellings(ctx)
+    run_import_bodies(ctx)
     for _ in range(60 if quick else 1500):
         run_repoint(ctx, rng)
     ctx.cov['rule'] = ('(a) all rows override{none,4} x transport{none,"",4} x content{neither, BOM x3, @charset x4} x parent{none,4} x bytes/text '
